@@ -61,7 +61,14 @@ let observe (tx : fixed_tx) (ops : op list) : string * string =
      (match tx.ft_aux with Some a -> hex_of_bytes a | None -> "~")
      (hex_of_bytes (encode_wits tx.ft_wits)) (hex_of_bytes (encode_fixed tx)) (hex_of_bytes tx.ft_hash) e, e)
 
+let n_loaded = ref 0 and n_covered = ref 0
 let is_setter = function OSetBody _ | OSetWits _ | OSetAux _ -> true | _ -> false
+(* the setter's argument lies in the sub-stream the schema decoder covers: the library must accept it *)
+let setter_covered = function
+  | OSetBody b -> body_covered b
+  | OSetAux a -> aux_covered (Some a)
+  | OSetWits w -> (match decode_wits w with Ok (ws, _) -> wits_covered ws | _ -> false)
+  | _ -> false
 
 (* input: the bytes the judge reads (for txn/txb: the four-element transaction assembled from the arguments) *)
 let run_tx (load : fixed_tx result) (judge_input : n list option) (optoks : string list) (impl : string list) : string * string =
@@ -76,7 +83,10 @@ let run_tx (load : fixed_tx result) (judge_input : n list option) (optoks : stri
   | Panic -> ("panic", "na")
   | OutOfFuel -> ("outoffuel", "na")
   | Ok tx ->
-    if impl = ["err"] then ("skip impl-rejects", "na") else
+    (* a library rejection is tolerated only outside the sub-stream the C01 schema decoder covers *)
+    let cov = tx_covered tx in
+    incr n_loaded; if cov then incr n_covered;
+    if impl = ["err"] && not cov then ("skip impl-rejects", "na") else
     let ops = List.map parse_op optoks in
     (try
       let (m, e) = observe tx ops in
@@ -85,7 +95,7 @@ let run_tx (load : fixed_tx result) (judge_input : n list option) (optoks : stri
         let ie = (match field impl "e" with Some s -> s | None -> "-") in
         let refine = ref false in
         List.iteri (fun i o -> if is_setter o && i < String.length ie && i < String.length e
-                                  && ie.[i] = '1' && e.[i] = '0' then refine := true) ops;
+                                  && ie.[i] = '1' && e.[i] = '0' && not (setter_covered o) then refine := true) ops;
         if !refine then ("skip impl-rejects-op", "na") else begin
           let v =
             match judge_input, field impl "b", field impl "a", field impl "w", field impl "t", field impl "hp" with
@@ -162,7 +172,7 @@ let run_mode () = run_driver (fun toks impl ->
     let bs = bytes_of_hex hexs in
     (match decode_fixed_body hid bs with
      | Ok ((raw, h), _) ->
-       if impl = ["err"] then ("skip impl-rejects", "na") else
+       if impl = ["err"] && not (body_covered raw) then ("skip impl-rejects", "na") else
        let v = (match field impl "o", field impl "hp" with
            | Some o, Some hp ->
              verdict_s (judge_datum bs (bytes_of_hex o)
@@ -702,14 +712,14 @@ let gen_mode seed tier out =
   let scale = if tier = "thorough" then 8 else 1 in
   List.iter (fun l -> output_string oc (l ^ "\n")) (fixed_cases ());
   (* stream 1: valid transactions re-encoded with noise, with operation sequences *)
-  for _ = 1 to 300 * scale do
+  for _ = 1 to 250 * scale do
     let parts = gen_tx_parts () in
     let (body, wits, _, _, _) = parts in
     let s = assemble parts in
     Printf.fprintf oc "tx %s %s\n" (hex_of_string s) (String.concat " " (gen_ops ~wits body true))
   done;
   (* stream 2: the same, then damaged *)
-  for _ = 1 to 110 * scale do
+  for _ = 1 to 90 * scale do
     let parts = gen_tx_parts () in
     let (body, _, _, _, _) = parts in
     let s = mutate (assemble parts) in
@@ -786,7 +796,7 @@ let gen_mode seed tier out =
      | _ -> ())
   done;
   (* stream 4: datums *)
-  for i = 1 to 200 * scale do
+  for i = 1 to 160 * scale do
     let nz = pick_noise () in
     let size = [| 0; 1; 2; 3; 4; 6 |].(i mod 6) in
     let s = nstr { nz with untag = 0; shuffle = 0 } (gen_item (plutusData depth) size) in
@@ -802,4 +812,4 @@ let gen_mode seed tier out =
 
 let () =
   if Array.length Sys.argv >= 5 && Sys.argv.(1) = "gen" then gen_mode Sys.argv.(2) Sys.argv.(3) Sys.argv.(4)
-  else run_mode ()
+  else begin run_mode (); Printf.eprintf "transactions accepted by the model: %d, of which in the schema-covered sub-stream (exact comparison in both directions): %d\n" !n_loaded !n_covered end
